@@ -178,6 +178,18 @@ class Recorder:
         self.lines.append(line)
         return r, out
 
+    def sync_killed(self, rules, *flags):
+        """sync with an injected SIGKILL (shim rules); logs the state that is left on disk"""
+        opts = {"force_full": "-F" in flags, "force_empty": "-E" in flags, "force_zero": "-Z" in flags,
+                "nocopy": "--force-nocopy" in flags, "kill_after": False}
+        r = self.a.run("sync", *flags, rules=rules)
+        self.last_result = r
+        st = self.state()
+        srcs = {d: {} for d in self.D}
+        self.lines.append({"e": "SyncKilled", "args": {"opts": opts, "now": self.now(), "srcs": srcs, "rules": rules,
+                                                        "flags": list(flags)}, "state": st, "out": {"rc": r.rc}})
+        return r
+
     def present_levels(self):
         res = []
         for l in range(self.a.conf.np):
